@@ -393,6 +393,18 @@ class ValueWrapper(Term):
         self.value = value
         self.allow_parametrize = allow_parametrize
 
+    def nodes_(self) -> Iterator[NodeT]:
+        yield self  # type:ignore[misc]
+        if isinstance(self.value, Node):
+            yield from self.value.nodes_()
+
+    @builder
+    def replace_table(  # type:ignore[return]
+        self, current_table: "Table" | None, new_table: "Table" | None
+    ) -> "Self":
+        if isinstance(self.value, Term):
+            self.value = self.value.replace_table(current_table, new_table)
+
     def get_value_sql(self, ctx: SqlContext) -> str:
         return self.get_formatted_value(self.value, ctx)
 
